@@ -307,6 +307,119 @@ outer:
 	r.Count("lookup." + strings.SplitN(impl, ":", 2)[0])
 }
 
+// --- lookup by interface: GetComponent[T] -------------------------------------------------------
+
+type ifaceA interface{ A() }
+type ifaceB interface{ B() }
+
+type tcomp struct {
+	kind int // bit 0: implements A, bit 1: implements B
+	tag  int
+}
+
+type tNone struct{ tcomp }
+type tA struct{ tcomp }
+type tB struct{ tcomp }
+type tAB struct{ tcomp }
+
+func (c *tcomp) Init(a *realapp.App) error { return nil }
+func (c *tcomp) Name() string              { return fmt.Sprintf("t%d", c.tag) }
+func (c *tA) A()                           {}
+func (c *tB) B()                           {}
+func (c *tAB) A()                          {}
+func (c *tAB) B()                          {}
+
+func mkT(c tcomp) realapp.Component {
+	switch c.kind {
+	case 1:
+		return &tA{c}
+	case 2:
+		return &tB{c}
+	case 3:
+		return &tAB{c}
+	}
+	return &tNone{c}
+}
+
+func tagOf(c any) int {
+	switch v := c.(type) {
+	case *tA:
+		return v.tag
+	case *tB:
+		return v.tag
+	case *tAB:
+		return v.tag
+	case *tNone:
+		return v.tag
+	}
+	return -1
+}
+
+func oneLookupT(r *corr.Run, chain [][]tcomp, ty int) {
+	var a *realapp.App
+	for i := len(chain) - 1; i >= 0; i-- {
+		if a == nil {
+			a = new(realapp.App)
+		} else {
+			a = a.ChildApp()
+		}
+		for _, c := range chain[i] {
+			a.Register(mkT(c))
+		}
+	}
+	parts := make([]string, len(chain))
+	for i, cs := range chain {
+		if len(cs) == 0 {
+			parts[i] = "-"
+			continue
+		}
+		p := make([]string, len(cs))
+		for j, c := range cs {
+			ts := []string{}
+			if c.kind&1 != 0 {
+				ts = append(ts, "1")
+			}
+			if c.kind&2 != 0 {
+				ts = append(ts, "2")
+			}
+			t := strings.Join(ts, "+")
+			if t == "" {
+				t = "_"
+			}
+			p[j] = fmt.Sprintf("%s:%d", t, c.tag)
+		}
+		parts[i] = strings.Join(p, ",")
+	}
+	op := fmt.Sprintf("lookupT %d %s", ty, strings.Join(parts, "/"))
+	impl := "notfound"
+	if ty == 1 {
+		if v, err := realapp.GetComponent[ifaceA](a); err == nil {
+			impl = fmt.Sprintf("found:%d", tagOf(v))
+		}
+	} else {
+		if v, err := realapp.GetComponent[ifaceB](a); err == nil {
+			impl = fmt.Sprintf("found:%d", tagOf(v))
+		}
+	}
+	model := r.Ask(op)
+	r.Check("C20", "app.lookupT", []string{op}, model, impl)
+	want := "notfound"
+outer:
+	for _, cs := range chain {
+		for _, c := range cs {
+			if c.kind&ty != 0 {
+				want = fmt.Sprintf("found:%d", c.tag)
+				break outer
+			}
+		}
+	}
+	if want != impl {
+		r.Violate("C20", "", "app.lookupT.oracle", fmt.Sprintf("GetComponent gave %s, property requires %s", impl, want), []string{op})
+	}
+	r.Case(op, len(chain) >= 2)
+	r.Count("lookupT." + strings.SplitN(impl, ":", 2)[0])
+}
+
 func Run(r *corr.Run) {
 	r.SetRule("start/close: every component list of length 0..N (N=5 quick, 7 thorough) x every runnable mask x every single failure point (init of i, run of runnable i) plus random multi-failure lists; lookup: random container chains of depth 1..4 with shadowed names; a case is non-trivial when it has >= 2 components / containers; distinct = distinct op lines")
 	maxN := r.Pick(5, 7)
@@ -341,5 +454,20 @@ func Run(r *corr.Run) {
 			}
 		}
 		oneLookup(r, chain, r.Intn(6))
+	}
+	for k := 0; k < r.Pick(2000, 40000); k++ {
+		depth := 1 + r.Intn(4)
+		chain := make([][]tcomp, depth)
+		for d := range chain {
+			for j := r.Intn(4); j > 0; j-- {
+				tag++
+				kind := 0
+				if r.Chance(35) {
+					kind = 1 + r.Intn(3)
+				}
+				chain[d] = append(chain[d], tcomp{kind, tag})
+			}
+		}
+		oneLookupT(r, chain, 1+r.Intn(2))
 	}
 }
